@@ -138,6 +138,7 @@ class Check:
         return "violation"
 
     def _write_replay(self, full, key, what, replay, reproduced, known=None):
+        os.makedirs(self.replay_dir, exist_ok=True)
         path = os.path.join(self.replay_dir, _slug(full + "--" + key) + ".json")
         doc = {"property": self.prop, "obligation": full, "failure_key": key, "what": what,
                "reproduced_natively": reproduced, "repo": self.repo.root}
